@@ -921,3 +921,8 @@ CLAUSES = [
     Clause("C13.fos", fos_cases, fos_check, tol="ipm(1e-4)", chunk=1, weight=1.0, probe=2,
            doc="fidelity_of_separability = 1 on pure product states (k=1,2, unequal local dims); mixed/entangled/non-density rejected"),
 ]
+
+# every toqito call of the cheap (non-SDP) clauses is repeated with column-major copies of its array arguments (engine.call, layout twin)
+for _c in CLAUSES:
+    if not _c.name.endswith(".fos"):
+        _c.layout_twin = True
